@@ -29,6 +29,7 @@
 EXTENDS Naturals, Sequences, FiniteSets, TLC, Json
 
 CONSTANTS Keys,       \* node keys
+          Mutant,     \* "none" (as coded) | "propagate-always" (design mutant: deletes always reach the previous store)
           Topos,      \* set of topologies [c1, p1, c2, p2]: l1 = (c1 over p1), l2 = (c2 over p2)
           GenMode, Depth
 
@@ -60,7 +61,7 @@ RECURSIVE DelK(_, _, _)
 DelK(S, h, k) ==
   IF h \in Stores THEN [S EXCEPT !.mem[h] = @ \ {k}]
   ELSE IF Has(S.mem, cur[h], k) THEN DelK(S, cur[h], k)
-  ELSE IF prop[h] /\ prev[h] # cur[h] THEN DelK(S, prev[h], k)
+  ELSE IF (prop[h] \/ Mutant = "propagate-always") /\ prev[h] # cur[h] THEN DelK(S, prev[h], k)
   ELSE [S EXCEPT !.delrec[h] = @ \cup {k}]
 
 RECURSIVE Visits(_, _, _)
